@@ -57,7 +57,9 @@ func (h hout) sexp() sexp.Node {
 	return sexp.T("err", sexp.Str(h.Status))
 }
 
-func mkErr(status string) *types.Error { return &types.Error{Status: status, Title: "application error"} }
+func mkErr(status string) *types.Error {
+	return &types.Error{Status: status, Title: "application error"}
+}
 
 func (h hout) value() (*res, *types.Error) {
 	switch h.Kind {
@@ -447,13 +449,13 @@ type jv struct {
 	O    []kv
 }
 
-func jnull() jv            { return jv{Kind: 'n'} }
-func jstr(s string) jv     { return jv{Kind: 's', S: s} }
-func jnum() jv             { return jv{Kind: '#'} }
-func jarr(xs ...jv) jv     { return jv{Kind: 'a', A: xs} }
-func jobj(kvs ...kv) jv    { return jv{Kind: 'o', O: kvs} }
-func f(k string, v jv) kv  { return kv{k, v} }
-func jid(t, id string) jv  { return jobj(f("type", jstr(t)), f("id", jstr(id))) }
+func jnull() jv           { return jv{Kind: 'n'} }
+func jstr(s string) jv    { return jv{Kind: 's', S: s} }
+func jnum() jv            { return jv{Kind: '#'} }
+func jarr(xs ...jv) jv    { return jv{Kind: 'a', A: xs} }
+func jobj(kvs ...kv) jv   { return jv{Kind: 'o', O: kvs} }
+func f(k string, v jv) kv { return kv{k, v} }
+func jid(t, id string) jv { return jobj(f("type", jstr(t)), f("id", jstr(id))) }
 
 func (j jv) sexp() sexp.Node {
 	switch j.Kind {
@@ -542,7 +544,7 @@ type body struct {
 	Tail string // bytes after the first value (ignored by a stream decoder)
 }
 
-func treeBody(j jv) body { return body{Tree: &j} }
+func treeBody(j jv) body    { return body{Tree: &j} }
 func rawBody(s string) body { return body{Raw: s} }
 
 func (bd body) text(r *rng.R) string {
@@ -925,6 +927,8 @@ func idTable() *table {
 		entry{"ebad", hout{Kind: hErr, Status: "abc"}},
 		entry{"e1000", hout{Kind: hErr, Status: "1000"}},
 		entry{"e+451", hout{Kind: hErr, Status: "+451"}},
+		entry{"e100", hout{Kind: hErr, Status: "100"}},
+		entry{"e999", hout{Kind: hErr, Status: "999"}},
 	)
 	return t
 }
@@ -949,7 +953,7 @@ func richSchema(subset, otherSubset int, flip bool) []typeSpec {
 	otherAttrs := []attrSpec{{Name: "name", Outs: []aout{{aOk, ""}, {aOk, ""}, {aErr, "410"}}}}
 	return []typeSpec{
 		mk("things", subset, thingAttrs, thingRels(!flip, flip, subset&16 == 0, subset&32 == 0), rid("things", "new")),
-		mk("others", otherSubset, otherAttrs, nil, rid("others", "new")),
+		mk("others", otherSubset, otherAttrs, nil, rid("things", "made")), // Create may answer with another type
 	}
 }
 
@@ -964,7 +968,7 @@ var okAccept = []string{mediaType}
 var paths = []string{
 	"", "/", "things", "//things/1",
 	"/things", "/others", "/unknown", "/things/",
-	"/things/1", "/things/v1", "/things/v2", "/things/v3", "/things/v5", "/things/v9", "/things/nil", "/things/e404", "/things/e0", "/things/ebad", "/things/e1000", "/things/e+451",
+	"/things/1", "/things/v1", "/things/v2", "/things/v3", "/things/v5", "/things/v9", "/things/nil", "/things/e404", "/things/e0", "/things/ebad", "/things/e1000", "/things/e+451", "/things/e100", "/things/e999",
 	"/others/1", "/others/v2", "/unknown/1", "/things/relationships",
 	"/things/1/one", "/things/1/many", "/things/1/nope", "/things/1/relationships", "/things/1/", "/things/nil/one", "/things/e404/many", "/things/ebad/one",
 	"/things/v4/one", "/things/v4/many", "/things/v5/one", "/things/v5/many", "/things/v6/one", "/things/v6/many", "/things/v7/one", "/things/v7/many",
@@ -1069,6 +1073,22 @@ var queryVariants = []string{
 	"page[size]=1&filter=x", "Foo=1&page[x]=2&aB=3", "Foo=1&bad!=2", "%zz=1", "a%5Bb%5D=1", "A%5Bb%5D=1", "A%5Bb=1",
 	"p%C3%A9=1", "P%C3%A9=1", "Aé=1", "A;b=1", "A=1;b=2", "page[size]", "PAGE=1", "Page[Size]=1", "a.b=1", "A.b=1", "A[b.c]=1",
 	"A[b][c][d][e]=1", "A_=1", "_A=1", "A[_b]=1", "0=1", "9a=1", "a9[0]=1",
+	"page[size", "Foo[bar", "Foo[a][bc", "page[ab]c]=1", "Foo[a]]", "Foo]", "Foo[a[b]]", "Foo[[a]", "page[a][", "page[a]]]",
+}
+
+// random parameter names glued from fragments that matter to the name grammar
+var keyFragments = []string{"page", "Foo", "a", "b9", "size", "[", "]", "[", "]", "-", "_", "x-y", "Z", "é", " ", ":", "[a]", "[b-c]"}
+
+func randQuery(r *rng.R) string {
+	v := url.Values{}
+	for n := r.Range(1, 3); n > 0; n-- {
+		var b strings.Builder
+		for k := r.Range(1, 6); k > 0; k-- {
+			b.WriteString(rng.Pick(r, keyFragments))
+		}
+		v.Set(b.String(), "1")
+	}
+	return v.Encode()
 }
 
 func defaultRequest() request {
@@ -1084,7 +1104,13 @@ var idNames = []string{"1", "2", "v1", "v2", "v3", "nil", "e404", "e0", "ebad", 
 var relNames = []string{"one", "many", "r3", "relationships", "nope"}
 var statuses = []string{"", "400", "403", "404", "409", "422", "500", "503", "200", "100", "999", "1000", "99", "0", "abc", "+404", "-404", "4 4", "0404", "40x"}
 
+// healthy: the generator currently prefers outcomes that let a request succeed (set per case)
+var healthy bool
+
 func randHout(r *rng.R) hout {
+	if healthy && r.Chance(5, 6) {
+		return hout{Kind: hVal, V: r.Intn(4)}
+	}
 	switch r.Intn(6) {
 	case 0:
 		return hout{Kind: hNil}
@@ -1133,7 +1159,11 @@ func randSchema(r *rng.R) []typeSpec {
 			if r.Chance(1, 2) {
 				as := attrSpec{Name: a}
 				for v := 0; v < 4; v++ {
-					switch r.Intn(8) {
+					k := r.Intn(8)
+					if healthy && r.Chance(3, 4) {
+						k = 7
+					}
+					switch k {
 					case 0:
 						as.Outs = append(as.Outs, aout{aUnser, ""})
 					case 1:
@@ -1176,16 +1206,16 @@ func randSchema(r *rng.R) []typeSpec {
 			}
 			ts.Rels = append(ts.Rels, rs)
 		}
-		if r.Chance(3, 4) {
+		if r.Chance(3, 4) || healthy {
 			ts.Get = randTable(r)
 		}
-		if r.Chance(2, 3) {
+		if r.Chance(2, 3) || healthy {
 			ts.Patch = randTable(r)
 		}
-		if r.Chance(2, 3) {
+		if r.Chance(2, 3) || healthy {
 			ts.Create = &createSpec{Out: randHout(r), Id: randRid(r)}
 		}
-		if r.Chance(2, 3) {
+		if r.Chance(2, 3) || healthy {
 			ts.Delete = randTable(r)
 		}
 		out = append(out, ts)
@@ -1356,6 +1386,22 @@ func randRequest(r *rng.R, specs []typeSpec) request {
 	if depth >= 4 && r.Chance(5, 6) {
 		comps[2] = "relationships"
 	}
+	if healthy {
+		// a method the endpoint supports, a known type, a relationship the type has
+		rq.Method = rng.Pick(r, [][]string{{"GET"}, {"POST"}, {"GET", "PATCH", "DELETE"}, {"GET", "PATCH"}, {"GET", "PATCH", "POST", "DELETE"}, {"GET"}, {"GET"}}[depth])
+		if t == "unknown" {
+			t = specs[0].Name
+			comps[0] = t
+		}
+		for _, s := range specs {
+			if s.Name == t && len(s.Rels) > 0 {
+				comps[3] = rng.Pick(r, s.Rels).Name
+				if depth == 3 {
+					comps[2] = comps[3]
+				}
+			}
+		}
+	}
 	rq.Path = "/" + strings.Join(comps[:depth], "/")
 	if depth == 0 {
 		rq.Path = rng.Pick(r, []string{"", "/"})
@@ -1367,14 +1413,18 @@ func randRequest(r *rng.R, specs []typeSpec) request {
 		rq.Path += "/"
 	}
 	// accept: mostly acceptable
-	if r.Chance(4, 5) {
+	if r.Chance(4, 5) || healthy {
 		rq.Accept = rng.Pick(r, [][]string{okAccept, okAccept, acceptVariants[4], acceptVariants[20], acceptVariants[21], acceptVariants[30]})
 	} else {
 		rq.Accept = rng.Pick(r, acceptVariants)
 	}
 	// query: mostly fine
-	if r.Chance(1, 5) {
+	if healthy {
+		rq.Query = rng.Pick(r, []string{"", "", "page[size]=1", "Foo=1"})
+	} else if r.Chance(1, 6) {
 		rq.Query = rng.Pick(r, queryVariants)
+	} else if r.Chance(1, 6) {
+		rq.Query = randQuery(r)
 	} else if r.Chance(1, 3) {
 		rq.Query = rng.Pick(r, []string{"page[size]=1", "Foo=1", "page[number]=2&X-y=3"})
 	}
@@ -1426,6 +1476,15 @@ func main() {
 				}
 			}
 		}
+		nq := 1500
+		if h.Thorough() {
+			nq = 40000
+		}
+		for i := 0; i < nq; i++ {
+			h.Case(func(r *rng.R) sexp.Node {
+				return runCase(r, richSchema(15, 15, false), request{Method: "GET", Path: "/things/1", Accept: okAccept, Query: randQuery(r)})
+			})
+		}
 		// 3. handler subsets x methods x paths x bodies
 		rb, lb := resourceBodies(), linkageBodies()
 		subsets := 16
@@ -1467,6 +1526,7 @@ func main() {
 		for i := 0; i < n; i++ {
 			h.Case(func(r *rng.R) sexp.Node {
 				var specs []typeSpec
+				healthy = r.Chance(1, 2)
 				if r.Chance(1, 4) {
 					specs = richSchema(r.Intn(64), r.Intn(16), r.Bool())
 				} else {
